@@ -42,6 +42,10 @@ def _exempt(func: str) -> bool:
     return any(p in INDEX_EXCEPTIONS for p in parts)
 
 
+def in_kernel_label(lbl: str) -> bool:
+    return lbl.endswith("._compute") or "._compute.<locals>" in lbl
+
+
 def _job(job) -> List[Dict[str, Any]]:
     idx, sel = job
     prog = Program()
@@ -201,6 +205,48 @@ def _job(job) -> List[Dict[str, Any]]:
         if not problems:
             agg_sites.add(id(ev.node))
         inst("R4.3", "VIOLATED" if problems else "HOLDS", f"team aggregate: {norm_text(ev.node, 90)}", "; ".join(problems), {}, m, fn, ln)
+    # the statistics the kernel actually receives: every mu-/sigma-dependent number of a team rating handed to the kernel is, in the
+    # final state, a sum over all members of that same team (a fold event alone is not enough: an accumulator that is not reset
+    # per team produces the event in the first iteration only)
+    from ..ai.state import InstObj
+    from ..ai.values import Ptr as _Ptr
+
+    def _team_fold(sym, depth=0):
+        """('ok', head) when sym is (0 +) fold(+, v, e(IN.player[head, v]), len(IN.team[head])), else a reason."""
+        if sym is None:
+            return ("unknown", "the value has no symbolic term (e.g. an accumulator carried over from the previous team)")
+        if sym[0] == "call" and sym[1] == "float" and len(sym) == 3:
+            return _team_fold(sym[2], depth + 1)
+        if sym[0] == "add" and sym[1][0] == "const" and sym[1][1] == 0:
+            return _team_fold(sym[2], depth + 1)
+        if sym[0] != "fold" or sym[1] != ("const", "+"):
+            return ("bad", f"it is not an additive fold ({sym[0]})")
+        lt = sym[4][1] if isinstance(sym[4], tuple) and sym[4][0] == "lenterm" else None
+        if not (isinstance(lt, tuple) and lt[0] == "len" and lt[1] == "IN.team" and len(lt[2]) == 1):
+            return ("bad", f"the fold does not run over the members of one team (length term {lt})")
+        return ("ok", lt[2][0])
+
+    checked = 0
+    for ev in evs:
+        if ev.kind != "return" or not ev.data.get("callee", "").endswith("_calculate_team_ratings") or not any(in_kernel_label(l) for l in ev.stack):
+            continue
+        v = ev.data.get("val")
+        sq = I.list_seq(st, v) if isinstance(v, _Ptr) and v.loc in st.heap else None
+        el = sq.elem if sq is not None else None
+        c_ = st.heap.get(el.loc) if isinstance(el, _Ptr) else None
+        if c_ is None or not isinstance(c_.obj, InstObj):
+            continue
+        for fname, _ in c_.obj.fields:
+            fv_ = I.read_field(st, el, fname)
+            if not isinstance(fv_, Num) or not ({"MU", "SIGMA"} & set(fv_.prov)):
+                continue
+            checked += 1
+            verdict, info = _team_fold(fv_.sym)
+            m_, fn_, ln_ = where(ev)
+            if verdict != "ok":
+                inst("R4.3", "UNDECIDED" if verdict == "unknown" else "VIOLATED", f"team statistic {fname} handed to the kernel",
+                     f"the team rating's {fname} is not a sum over all members of its own team: {info}", {}, m_, fn_, ln_)
+        break
     agg_ok = len(agg_sites)
     if agg_ok < 2 and not any(d["rule"] == "R4.3" and d["verdict"] == "VIOLATED" for d in out):
         inst("R4.3", "VIOLATED", "team aggregates", f"only {agg_ok} commutative fold(s) over all team members found where the team's mu and variance need one each: a team statistic is not a sum over all members")
